@@ -462,6 +462,7 @@ def loops_to_comps(body: list[ast.stmt], total: dict[str, int] | None = None) ->
             ok = bool(stmts)
             cond = None
             elt = None
+            extra_gens: list = []
             for j, st in enumerate(stmts):
                 if isinstance(st, ast.Assign) and len(st.targets) == 1 and isinstance(st.targets[0], ast.Name) and j < len(stmts) - 1 \
                         and st.targets[0].id != acc:
@@ -487,6 +488,16 @@ def loops_to_comps(body: list[ast.stmt], total: dict[str, int] | None = None) ->
                             and isinstance(inner.value.func, ast.Attribute) and inner.value.func.attr == ("append" if kind == "list" else "add") \
                             and isinstance(inner.value.func.value, ast.Name) and inner.value.func.value.id == acc and len(inner.value.args) == 1:
                         elt = _Subst(mapping).visit(copy.deepcopy(inner.value.args[0]))
+                    elif kind == "list" and ((isinstance(inner, ast.AugAssign) and isinstance(inner.op, ast.Add) and isinstance(inner.target, ast.Name)
+                                              and inner.target.id == acc and isinstance(inner.value, ast.ListComp))
+                                             or (isinstance(inner, ast.Expr) and isinstance(inner.value, ast.Call) and isinstance(inner.value.func, ast.Attribute)
+                                                 and inner.value.func.attr == "extend" and isinstance(inner.value.func.value, ast.Name)
+                                                 and inner.value.func.value.id == acc and len(inner.value.args) == 1
+                                                 and isinstance(inner.value.args[0], (ast.ListComp, ast.GeneratorExp)))):
+                        # acc += [E for w in v]  inside  for v in S  ->  [E for v in S for w in v]
+                        comp_ = _Subst(mapping).visit(copy.deepcopy(inner.value if isinstance(inner, ast.AugAssign) else inner.value.args[0]))
+                        elt = comp_.elt
+                        extra_gens = list(comp_.generators)
                     elif kind == "counter" and isinstance(inner, ast.AugAssign) and isinstance(inner.op, ast.Add) and isinstance(inner.value, ast.Constant) \
                             and inner.value.value == 1 and isinstance(inner.target, ast.Subscript) and isinstance(inner.target.value, ast.Name) \
                             and inner.target.value.id == acc:
@@ -520,12 +531,12 @@ def loops_to_comps(body: list[ast.stmt], total: dict[str, int] | None = None) ->
             # the accumulator must not be read inside the loop
             if ok and elt is not None:
                 reads = [n for st in stmts for n in ast.walk(st) if isinstance(n, ast.Name) and n.id == acc and isinstance(n.ctx, ast.Load)]
-                if len(reads) != 1:
+                if len(reads) != (0 if extra_gens and isinstance(stmts[-1] if not isinstance(stmts[-1], ast.If) else stmts[-1].body[0], ast.AugAssign) else 1):
                     ok = False
             if ok and elt is not None and _escapes(loop, set(mapping) | {n.id for n in ast.walk(loop.target) if isinstance(n, ast.Name)}, total):
                 ok = False
             if ok and elt is not None:
-                gen = [ast.comprehension(target=loop.target, iter=loop.iter, ifs=[cond] if cond is not None else [], is_async=0)]
+                gen = [ast.comprehension(target=loop.target, iter=loop.iter, ifs=[cond] if cond is not None else [], is_async=0)] + extra_gens
                 if kind == "counter":
                     comp = ast.Call(func=copy.deepcopy(val.func), args=[ast.GeneratorExp(elt=elt, generators=gen)], keywords=[])
                 elif kind == "list":
